@@ -71,8 +71,8 @@ impl Scenario for AcceptScenario {
 
     fn runs(&self, tier: Tier) -> u64 {
         match tier {
-            Tier::Quick => 10_000,
-            Tier::Thorough => 200_000,
+            Tier::Quick => 30_000,
+            Tier::Thorough => 800_000,
         }
     }
 
@@ -692,7 +692,9 @@ pub fn analyse(
             },
             H::Confirm { dest, seq, uns, .. } => {
                 // must be justified by an accepted fragment of that outstation asking for confirmation
-                let cand = txs.iter_mut().rev().find(|t| {
+                // (several fragments in flight may carry the same sequence number: the confirmation belongs to one the master
+                // must accept, the oldest first, before it is credited to one it merely may accept)
+                let matches = |t: &Tx| {
                     t.src == *dest
                         && t.con
                         && t.uns == *uns
@@ -700,7 +702,12 @@ pub fn analyse(
                         && t.order < pos
                         && t.confirms == 0
                         && !t.must_reject
-                });
+                };
+                let idx = txs
+                    .iter()
+                    .position(|t| matches(t) && t.must_accept)
+                    .or_else(|| txs.iter().rposition(|t| matches(t)));
+                let cand = idx.map(|i| &mut txs[i]);
                 match cand {
                     Some(t) => t.confirms += 1,
                     None => {
